@@ -88,6 +88,19 @@ def x_alph_poll():
     a = re.search(r'unconfirmed, err := w\.toUnconfirmedEvent\(&contractEvent\)\s*\n\s*if err != nil \{\s*\n\s*logger\.\w+\([^\n]*\)\s*\n\s*(return nil, err|continue)\s*\n\s*\}', hu)
     if not a:
         raise Broken("handleUnconfirmedEvents: handling of an unconvertible event not found")
+    out = ("(* fetchEvents page loop: `if events.NextStart %s *count { break }` *)\n"
+           "Definition alph_page_exit (next count : Z) : bool := next %s count.\n"
+           "(* handleUnconfirmedEvents on an unconvertible event: `%s` *)\n"
+           "Definition alph_unconv_aborts : bool := %s.\n"
+           % (m.group(1), CMP[m.group(1)], a.group(1), "true" if a.group(1).startswith("return") else "false"))
+    return out, {"page_exit": m.group(1), "unconvertible": a.group(1)}
+
+
+def x_alph_filters():
+    """the filters of the polling path: event index test, attestation validation (skip on error, comparison with the token
+    contract's answer), sender filter before the send on msgChan"""
+    src = rd("node/pkg/alephium/watcher.go")
+    hu = func_body(src, r'^func \(w \*Watcher\) handleUnconfirmedEvents\(', "handleUnconfirmedEvents")
     v = re.search(r'if unconfirmed\.msg\.IsAttestTokenVAA\(\) \{.*?if err = w\.validateAttestToken\(ctx, unconfirmed\.msg\); err != nil \{\s*\n\s*logger\.\w+\([^\n]*\)\s*\n\s*continue\s*\n\s*\}', hu, re.S)
     if not v:
         raise Broken("handleUnconfirmedEvents: attestation validation (validateAttestToken, skip on error) not found")
@@ -98,14 +111,14 @@ def x_alph_poll():
     if not re.search(r'case WormholeMessageEventIndex:\s*\n\s*if !e\.event\.msg\.senderId\.equalWith\(w\.tokenBridgeContractId\) \{\s*\n[^\n]*\n\s*continue\s*\n\s*\}\s*\n\s*w\.msgChan <- ', hc):
         raise Broken("handleConfirmedEvents: sender filter before the send on msgChan not found")
     va = func_body(src, r'^func \(w \*Watcher\) validateAttestToken\(', "validateAttestToken")
+    in_order(va, [r'tokenInfo, err := parseAttestToken\(msg\.payload\)\s*if err != nil \{\s*return err\s*\}',
+                  r'tokenInfoFromChain, err := w\.client\.GetTokenInfo\(ctx, tokenInfo\.TokenId\)\s*if err != nil \{\s*return err\s*\}'], "validateAttestToken")
     if not re.search(r'if \*tokenInfo != \*tokenInfoFromChain \{\s*return fmt\.Errorf', va):
         raise Broken("validateAttestToken: comparison with the on-chain token info not found")
-    out = ("(* fetchEvents page loop: `if events.NextStart %s *count { break }` *)\n"
-           "Definition alph_page_exit (next count : Z) : bool := next %s count.\n"
-           "(* handleUnconfirmedEvents on an unconvertible event: `%s` *)\n"
-           "Definition alph_unconv_aborts : bool := %s.\n"
-           % (m.group(1), CMP[m.group(1)], a.group(1), "true" if a.group(1).startswith("return") else "false"))
-    return out, {"page_exit": m.group(1), "unconvertible": a.group(1)}
+    out = ("(* polling-path filters verified against the source: toUnconfirmedEvent index test, validateAttestToken comparison, "
+           "skip of invalid attestations, sender filter in handleConfirmedEvents *)\n"
+           "Definition alph_polling_filters_checked : bool := true.\n")
+    return out, {"checked": ["toUnconfirmedEvent", "validateAttestToken", "handleUnconfirmedEvents", "handleConfirmedEvents"]}
 
 
 def x_alph_tokeninfo():
@@ -254,4 +267,4 @@ def x_alph_process():
     return out, {"checked": ["handleEvents_", "handleEvents", "fetchEvents", "handleUnconfirmedEvents", "_fetchHeight", "Run"]}
 
 
-EXTRACTORS = [("alph_confirm", x_alph_confirm), ("alph_poll", x_alph_poll), ("alph_tokeninfo", x_alph_tokeninfo), ("alph_reobserve", x_alph_reobserve), ("alph_process", x_alph_process)]
+EXTRACTORS = [("alph_confirm", x_alph_confirm), ("alph_poll", x_alph_poll), ("alph_filters", x_alph_filters), ("alph_tokeninfo", x_alph_tokeninfo), ("alph_reobserve", x_alph_reobserve), ("alph_process", x_alph_process)]
